@@ -95,11 +95,26 @@ def to_coq(f):
 
 
 class Render:
-    """a program as Hy source; function names are numbered in rendering order"""
+    """a program as Hy source; function names are numbered in rendering order.  `variants`: None = the plain
+    spelling; a float = the probability of each alternative spelling (needs rng); 1.0 = always.
+    Alternative spellings do not change the meaning: the mangled names eval_and_compile / eval_when_compile /
+    do_mac are the same core macros, and (do x y...) may be written as a `with` whose second context manager
+    needs statements and contains x:  (with [_ (NULLCM) _ (do (setv w 0) x (NULLCM))] y...)"""
+    NAMES = {"eac": ("eval-and-compile", "eval_and_compile"), "ewc": ("eval-when-compile", "eval_when_compile"),
+             "domac": ("do-mac", "do_mac")}
 
-    def __init__(self, log="LOG"):
+    def __init__(self, log="LOG", rng=None, variants=None):
         self.n = 0
         self.log = log
+        self.rng, self.variants = rng, variants
+
+    def alt(self):
+        if not self.variants:
+            return False
+        return self.variants >= 1.0 or self.rng.random() < self.variants
+
+    def name(self, t):
+        return self.NAMES[t][1 if self.alt() else 0]
 
     def form(self, f):
         t = f[0]
@@ -109,14 +124,16 @@ class Render:
         if t == "const":
             return "None" if f[1] is None else str(f[1])
         if t == "do":
+            if len(f[1]) >= 2 and self.alt():
+                self.n += 1
+                return "(with [_ (NULLCM) _ (do (setv with-tmp-%d 0) %s (NULLCM))] %s)" % (
+                    self.n, self.form(f[1][0]), seq(f[1][1:]))
             return "(do %s)" % seq(f[1])
-        if t == "eac":
-            return "(eval-and-compile %s)" % seq(f[1])
-        if t == "ewc":
-            return "(eval-when-compile %s)" % seq(f[1])
+        if t in ("eac", "ewc"):
+            return "(%s %s)" % (self.name(t), seq(f[1]))
         if t == "domac":
             b = seq(f[1])
-            return "(do-mac %s '%s)" % (b, self.form(f[2]))
+            return "(%s %s '%s)" % (self.name(t), b, self.form(f[2]))
         self.n += 1
         name = "stage-fn-%d" % self.n
         b = seq(f[2])
@@ -216,7 +233,9 @@ def run_inprocess(hy, src, name="c16mod"):
     def LOG(k):
         log.append(k)
         return k
+    import contextlib
     builtins.LOG = LOG
+    builtins.NULLCM = contextlib.nullcontext
     try:
         m = types.ModuleType(name)
         tree = hy_compile(hy.read_many(src), m)
@@ -232,6 +251,7 @@ def run_inprocess(hy, src, name="c16mod"):
         return ct, rt, m.__dict__.get("RESULT", "<unset>"), rt2
     finally:
         del builtins.LOG
+        del builtins.NULLCM
 
 
 def decode_model(o):
@@ -256,7 +276,7 @@ def m_nested(rec, params):
             and o.get("compile_time") == o.get("model_compile_time") and o.get("run_time_ok") is True)
 
 
-LOGDEF = ('(eval-and-compile (import os)\n'
+LOGDEF = ('(eval-and-compile (import os contextlib) (setv NULLCM contextlib.nullcontext)\n'
           '  (defn LOG [k] (with [f (open (get os.environ "C16_LOG") "a")] (.write f (+ (str k) "\\n"))) k))\n')
 
 
@@ -266,14 +286,19 @@ def check_inprocess(chk, n_programs, depth):
     progs = [[("eac", [("ewc", [("log", 1)]), ("log", 2)])],           # the refutation witness of Props/C16.v
              [("eac", [("eac", [("log", 1)]), ("log", 2)])],
              [("eac", [("domac", [("log", 1)], ("log", 2))])],
-             [("fn", 2, [("eac", [("log", 1), ("const", 5)])]), ("ewc", [("log", 2), ("const", 5)])]]
+             [("fn", 2, [("eac", [("log", 1), ("const", 5)])]), ("ewc", [("log", 2), ("const", 5)])],
+             # rendered with every alternative spelling (see Render): mangled macro names, `with` managers
+             [("eac", [("log", 1), ("const", 7)]), ("domac", [("log", 2)], ("log", 3)), ("ewc", [("log", 4)])],
+             [("do", [("ewc", [("log", 1)]), ("log", 2)]), ("do", [("eac", [("log", 3)]), ("domac", [("log", 4)], ("log", 5)), ("log", 6)])]]
+    n_fixed = len(progs)
     while len(progs) < n_programs:
         g = Gen(rng)
         progs.append(g.body(rng.choice([1, 2, depth, depth]), n=rng.choice([1, 1, 2, 3])))
     exprs = ["render_module [%s]" % "; ".join(to_coq(f) for f in p) for p in progs]
     outs = vlib.coq_eval(["HyV.Cmd.StagingModel"], "", exprs, tag="c16", shard=150)
     chk.matchers["c16_staging_inside_eval_and_compile"] = m_nested
-    for p, o in zip(progs, outs):
+    for pi, (p, o) in enumerate(zip(progs, outs)):
+        variants = 1.0 if 4 <= pi < n_fixed else (0.25 if pi >= n_fixed else None)
         m = decode_model(o)
         clean = all(eac_clean(f) for f in p)
         kinds = set()
@@ -286,8 +311,9 @@ def check_inprocess(chk, n_programs, depth):
         if (m["spec_ct"], m["spec_rt"], m["spec_val"], m["clean"]) != (sct, srt, sval, clean):
             chk.disagree("spec_ct/spec_rt of Cmd/StagingModel.v vs the prescription computed in props/c16.py",
                          to_coq(("do", p)), repr(m), repr((sct, srt, sval, clean)))
-        src_top = " ".join(Render().form(f) for f in p)
-        src_val = "(setv RESULT (do %s))" % " ".join(Render().form(f) for f in p)
+        r1, r2 = Render(rng=rng, variants=variants), Render(rng=rng, variants=variants)
+        src_top = " ".join(r1.form(f) for f in p)
+        src_val = "(setv RESULT (do %s))" % " ".join(r2.form(f) for f in p)
         for style, src in (("top-level", src_top), ("value-position", src_val)):
             how = ("hy_compile(hy.read_many(SRC), module) with a builtin LOG appending to a list, then exec twice; "
                    "SRC = " + src)
@@ -328,7 +354,8 @@ def check_histories(chk, n_programs, depth):
             d = os.path.join(root, "h%d" % i)
             os.makedirs(d)
             name = "stagemod%d" % i
-            src = LOGDEF + "(LOG 0)\n" + "\n".join(Render().form(f) for f in p) + "\n"
+            rr = Render(rng=rng, variants=0.25)
+            src = LOGDEF + "(LOG 0)\n" + "\n".join(rr.form(f) for f in p) + "\n"
             with open(os.path.join(d, name + ".hy"), "w") as f:
                 f.write(src)
             cases.append((i, p, d, name, src))
